@@ -10,7 +10,13 @@
    step that hands over the reply, for a disconnect the step that runs the
    deferred UnsubscribeAll).  A CLOSE has no reply and therefore no end
    stamp, exactly as in the harness.  A message is stamped with the step
-   that appended it to the connection's output. *)
+   that appended it to the connection's output.
+
+   A disconnect begins when its label takes effect: at once for an idle
+   connection, or — cancelling the session's context — while an operation of
+   the connection is in flight; in that case the operation in flight ends
+   when (and if) its reply is handed over.  The disconnect ends with the
+   deferred UnsubscribeAll. *)
 From Moc Require Import Base Match Router RouterSpec.
 Open Scope Z_scope.
 
@@ -26,12 +32,15 @@ Definition is_close (o : op) : bool := match o with OClose _ => true | _ => fals
 Definition is_none {A} (o : option A) : bool := match o with None => true | Some _ => false end.
 Definition is_nil {A} (l : list A) : bool := match l with [] => true | _ :: _ => false end.
 
-(** the operation of connection [c] that is in progress gets its end stamp *)
-Definition close1 (c : conn) (k : Z) (h : hop) : hop :=
-  if Nat.eqb (h_c h) c && is_none (h_d h) && negb (is_close (h_o h))
+(** the operation of connection [c] that is in progress gets its end stamp:
+    its disconnect if [d], else the operation its recv loop was working on *)
+Definition close1 (d : bool) (c : conn) (k : Z) (h : hop) : hop :=
+  if Nat.eqb (h_c h) c && is_none (h_d h) && negb (is_close (h_o h)) && Bool.eqb (is_disc (h_o h)) d
   then mkHop (h_c h) (h_o h) (h_b h) (Some k) else h.
 
-Definition close_hop (c : conn) (k : Z) (H : list hop) : list hop := List.map (close1 c k) H.
+Definition close_hop (d : bool) (c : conn) (k : Z) (H : list hop) : list hop := List.map (close1 d c k) H.
+
+Definition is_unsub_head (pc : list instr) : bool := match pc with IUnsubAll :: _ => true | _ => false end.
 
 Record istate := mkI {
   i_s : rstate;                          (* the model's state *)
@@ -44,19 +53,24 @@ Definition i_init (buf : nat) : istate := mkI (r_init buf) 0 [] (fun _ => []).
 
 (** the recv loop of [c] takes the next client message *)
 Definition accepted (s : rstate) (c : conn) : bool :=
-  is_nil (c_pc (r_cs s c)) && negb (c_dead (r_cs s c)).
+  is_nil (c_pc (r_cs s c)) && negb (c_dead (r_cs s c)) && negb (mem_conn c (r_cancel s)).
+
+(** ... or the label is a disconnect that cancels the context of a busy session *)
+Definition op_taken (s : rstate) (c : conn) (o : op) : bool :=
+  negb (c_dead (r_cs s c)) && negb (mem_conn c (r_cancel s)) && (is_nil (c_pc (r_cs s c)) || is_disc o).
 
 Definition istep (st : istate) (l : label) : istate :=
   let s := i_s st in
   let s' := step s l in
   let k := i_now st in
   let H1 := match l with
-            | LOp c o => if accepted s c then i_hops st ++ [mkHop c o k None] else i_hops st
+            | LOp c o => if op_taken s c o then i_hops st ++ [mkHop c o k None] else i_hops st
             | _ => i_hops st
             end in
   let H2 := match l with
             | LRun c =>
-                if negb (is_nil (c_pc (r_cs s c))) && is_nil (c_pc (r_cs s' c)) then close_hop c k H1 else H1
+                if negb (is_nil (c_pc (r_cs s c))) && is_nil (c_pc (r_cs s' c))
+                then close_hop (is_unsub_head (c_pc (r_cs s c))) c k H1 else H1
             | _ => H1
             end in
   mkI s' (k + 1) H2
@@ -77,7 +91,7 @@ Definition model_history (buf N : nat) (tr : list label) : history := hist_of N 
 (** * The hypotheses under which the oracles are sound *)
 
 Definition label_actor (l : label) : conn :=
-  match l with LOp c _ | LRun c | LVisit c _ _ | LTake c | LDeliver c => c end.
+  match l with LOp c _ | LRun c | LVisit c _ _ | LTake c | LDeliver c | LSkip c => c end.
 
 (** the schedule only mentions connections 0 .. N-1 *)
 Definition conns_below (N : nat) (tr : list label) : Prop :=
@@ -93,9 +107,11 @@ Definition wf_label (l : label) : Prop :=
   | _ => True
   end.
 
-(** every program has run to its end and every open connection has read
-    everything that was queued for it (the harness's final flush) *)
+(** every program has run to its end, every cancelled session has returned,
+    and every open connection has read everything that was queued for it (the
+    harness's final flush) *)
 Definition quiescent (s : rstate) : Prop :=
+  r_cancel s = [] /\
   forall x, c_pc (r_cs s x) = [] /\
             (c_dead (r_cs s x) = false -> c_q (r_cs s x) = [] /\ c_hand (r_cs s x) = None).
 
@@ -118,17 +134,26 @@ Definition uniq_pub_ids (h : history) : Prop :=
 Inductive sitem :=
 | SOp (c : conn) (o : op)
 | SPause (c : conn)
-| SResume (c : conn).
+| SResume (c : conn)
+| SCut (c : conn) (o : op) (giveup : bool).
+    (* the client sends [o] and disconnects without waiting for the reply; [giveup]: the
+       recv goroutine finds the context cancelled when it wants to hand over the reply *)
 
-(** run the goroutine of [c] until its program is empty *)
-Fixpoint drive_c (fuel : nat) (st : istate) (c : conn) : istate * list label :=
+(** run the goroutine of [c] until its program is empty and, if its context
+    was cancelled, until its deferred UnsubscribeAll has run *)
+Fixpoint drive_c (fuel : nat) (st : istate) (c : conn) (giveup : bool) : istate * list label :=
   match fuel with
   | O => (st, [])
   | S f =>
-      match c_pc (r_cs (i_s st) c) with
-      | [] => (st, [])
-      | _ :: _ =>
-          let (st', tr) := drive_c f (istep st (LRun c)) c in (st', LRun c :: tr)
+      let s := i_s st in
+      match c_pc (r_cs s c) with
+      | [] =>
+          if mem_conn c (r_cancel s)
+          then let (st', tr) := drive_c f (istep st (LRun c)) c giveup in (st', LRun c :: tr)
+          else (st, [])
+      | i :: _ =>
+          let l := if giveup && mem_conn c (r_cancel s) && is_reply_instrb i then LSkip c else LRun c in
+          let (st', tr) := drive_c f (istep st l) c giveup in (st', l :: tr)
       end
   end.
 
@@ -159,7 +184,7 @@ Fixpoint drain_all (st : istate) (xs : list conn) (paused : list conn) : istate 
     steps, or per registered connection one step to enter, one per
     subscription, one to leave *)
 Definition drive_fuel (s : rstate) : nat :=
-  (6 + fold_right (fun cm acc => 2 + length (snd cm) + acc) 0 (r_reg s))%nat.
+  (9 + fold_right (fun cm acc => 2 + length (snd cm) + acc) 0 (r_reg s))%nat.
 
 Fixpoint det_run (N : nat) (st : istate) (script : list sitem) (paused : list conn) : istate * list label :=
   match script with
@@ -171,10 +196,16 @@ Fixpoint det_run (N : nat) (st : istate) (script : list sitem) (paused : list co
       (st2, tr1 ++ tr2)
   | SOp c o :: script' =>
       let st0 := istep st (LOp c o) in
-      let (st1, tr1) := drive_c (drive_fuel (i_s st0)) st0 c in
+      let (st1, tr1) := drive_c (drive_fuel (i_s st0)) st0 c false in
       let (st2, tr2) := drain_all st1 (seq 0 N) paused in
       let (st3, tr3) := det_run N st2 script' paused in
       (st3, LOp c o :: tr1 ++ tr2 ++ tr3)
+  | SCut c o giveup :: script' =>
+      let st0 := istep (istep st (LOp c o)) (LOp c ODisc) in
+      let (st1, tr1) := drive_c (drive_fuel (i_s st0)) st0 c giveup in
+      let (st2, tr2) := drain_all st1 (seq 0 N) paused in
+      let (st3, tr3) := det_run N st2 script' paused in
+      (st3, LOp c o :: LOp c ODisc :: tr1 ++ tr2 ++ tr3)
   end.
 
 Definition det_schedule (buf N : nat) (script : list sitem) : list label :=
